@@ -8,6 +8,7 @@
              (mkdir fails part-way, at each level; before / after / below successful targets; on a
              rebuild): the statement (SimI2.no_unrecorded_directory_survives_any_target_statement)
              holds on all of them;
+   [outside_ill_formed_previous_cache]: previous caches that violate old_ok;
    [first_build_instance]: the theorem instantiated (all hypotheses proved) on a first build whose cache
              file lies two new directories deep, with a failing call: the theorem is not vacuous there.
    New file; edits nothing. *)
@@ -71,17 +72,39 @@ Example outside_cf2 :
       ([B b1], bf ["out"; LONG; "k3"; "k2"; "k1"] (fun _ => failing ["x"; "k3"; "k2"; "k1"] ok)) ] = true.
 Proof. vm_compute. reflexivity. Qed.
 
+(* previous caches that are NOT old_ok (hand-made: the list of created directories also names the
+   root, an output, a path below an output, the cache file, a path below the cache file, a path
+   that does not exist): whenever the build commits, the statement holds *)
+Definition poke (cf : path) (f : cache -> cache) (w : world) : world :=
+  match lookup (w_fs w) cf with
+  | Some (NFile g) =>
+      match cache_of_json (f_json g) with
+      | ReadOk c => set_fs (upd cf (Some (NFile {| f_bytes := f_bytes g; f_mtime := f_mtime g; f_id := f_id g;
+                                                   f_json := cache_to_json (f c) |})) (w_fs w)) w
+      | _ => w
+      end
+  | _ => w
+  end.
+Definition adddirs (l : list path) (c : cache) : cache := cache_with c (c_files c) (c_subs c) (c_dirs c ++ l) (c_built c).
+Definition holdsw (cf : path) (w : world) (pr : prog) : bool :=
+  let '(w', r) := run_build cf "n" (PDict []) pr w in
+  negb (committed r) || chkB1 (w_new w') (w_fs w) (w_fs w').
+Definition progs : list prog :=
+  [b1; failing ["x"; "d"; "c"] ok; bf ["q"; "out"; "d"; "c"] ok; failing ["q"; "sub"; "out"; "d"; "c"] ok;
+   bf ["q"; "sub"; "out"; "d"; "c"] ok; failing ["q"; "zz"] ok; bf ["q"; "zz"] ok; bf ["q"; "cache.gz"] ok; Ret PNone].
+
+Example outside_ill_formed_previous_cache :
+  forallb (fun extra => let w := poke cfp (adddirs extra) (steps cfp [B b1] init_world) in
+                        forallb (holdsw cfp w) progs)
+    [ [["zz"]]; [[]]; [["sub"; "out"; "d"; "c"]]; [["out"; "d"; "c"]]; [["cache.gz"]]; [["k"; "cache.gz"]] ] = true.
+Proof. vm_compute. reflexivity. Qed.
+
 (* ------------------------------------------------------------------ the theorem is not vacuous *)
 Definition t1 : path := ["x"; "k3"; "k2"; "k1"].
 Definition t2 : path := ["o"; "k4"; "k2"; "k1"].
 Definition pr0 : prog := failing t1 (fun _ => bf t2 ok).
 Definition P0 (p : path) : Prop := p = t1 \/ p = t2.
 
-Lemma below_cases : forall a n d, below a (n :: d) = true -> a = d \/ below a d = true.
-Proof.
-  intros a n d H. cbn [below] in H. apply orb_true_iff in H. destruct H as [H|H]; [left|right; exact H].
-  apply FsLemmas.path_eqb_eq in H. symmetry. exact H.
-Qed.
 
 Example first_build_instance :
   let w' := fst (run_build cf2 "n" (PDict []) pr0 init_world) in
